@@ -43,7 +43,7 @@ func (c QueryCase) Catalog() model.Catalog {
 
 // exprStats walks a query for classification.
 type qStats struct {
-	ops, nullLits int
+	ops, nullLits                                                          int
 	hasWhere, hasDistinct, hasOrder, hasLimit, nested, with, join, grouped bool
 }
 
